@@ -157,6 +157,21 @@ class Check:
     def mustfail(self, name, hyps, claim, function="", **kw) -> Obligation:
         return self.add(Obligation(name, "mustfail", list(hyps), claim, function, **kw))
 
+    def guarded(self, name: str, thunk, function: str = "", replay=None):
+        """Run a piece of obligation generation; if the real code's result left the translatable subset, record
+        that as a refuted *lemma* obligation (the proof cannot be built) whose replay looks for a property-level
+        failure on the real code. Returns the thunk's value or None."""
+        from .tr import TrError
+
+        try:
+            out = thunk()
+        except (TrError, Undecided, AttributeError, TypeError, ValueError, KeyError, IndexError, NotImplementedError) as e:
+            self.add(Obligation(name + ".translatable", "struct", function=function, holds=False, lemma=True,
+                                witness=f"{type(e).__name__}: {e}"[:300], replay=replay))
+            return None
+        self.add(Obligation(name + ".translatable", "struct", function=function, holds=True, lemma=True))
+        return out
+
     def assume(self, text: str) -> None:
         if text not in self.assumptions:
             self.assumptions.append(text)
